@@ -408,6 +408,13 @@ type AtCall struct {
 	Ordinal int
 	Asserts []*Clause
 	Assumes []*Clause // ghost updates expressed as equalities over ghost state (trusted only for ghost)
+	Sets    []*GhostSet
+}
+
+// GhostSet is a ghost assignment G(Obj) := Val attached to a call site.
+type GhostSet struct {
+	Name     string
+	Obj, Val *Clause
 }
 
 type Contract struct {
@@ -661,10 +668,6 @@ func parseContractFile(path string) (*ContractFile, error) {
 				site = site[:j]
 			}
 			k2, r2 := splitKw(strings.TrimSpace(r[i+1:]))
-			c, err := mkClause(k2, r2, rc.line)
-			if err != nil {
-				return nil, err
-			}
 			var ac *AtCall
 			for _, x := range cur.AtCalls {
 				if x.Callee == site && x.Ordinal == ord {
@@ -674,6 +677,30 @@ func parseContractFile(path string) (*ContractFile, error) {
 			if ac == nil {
 				ac = &AtCall{Callee: site, Ordinal: ord}
 				cur.AtCalls = append(cur.AtCalls, ac)
+			}
+			if k2 == "ghost" {
+				// at call NAME#k: ghost G(OBJ) := E — a ghost assignment executed after the call
+				// returns (r / r0.. name its results); ghost state never influences the program
+				j := strings.Index(r2, ":=")
+				lhs := strings.TrimSpace(r2[:max(j, 0)])
+				k := strings.Index(lhs, "(")
+				if j < 0 || k <= 0 || !strings.HasSuffix(lhs, ")") {
+					return nil, fmt.Errorf("%s:%d: bad ghost assignment (want G(obj) := expr)", path, rc.line)
+				}
+				obj, err := mkClause("ghost", lhs[k+1:len(lhs)-1], rc.line)
+				if err != nil {
+					return nil, err
+				}
+				val, err := mkClause("ghost", strings.TrimSpace(r2[j+2:]), rc.line)
+				if err != nil {
+					return nil, err
+				}
+				ac.Sets = append(ac.Sets, &GhostSet{Name: strings.TrimSpace(lhs[:k]), Obj: obj, Val: val})
+				continue
+			}
+			c, err := mkClause(k2, r2, rc.line)
+			if err != nil {
+				return nil, err
 			}
 			switch k2 {
 			case "assert":
